@@ -306,13 +306,35 @@ func (r *rewriter) transform(m ast.Node) (string, bool) {
 		st.gos++
 		r.needsRT = true
 		if len(n.Call.Args) != 0 {
-			fatalf("%s: go statement with arguments is not supported by simgen", r.site(n.Pos()))
+			// `go f(x, y)`: the function value and the arguments are evaluated now, by
+			// the spawning goroutine, and the call itself happens in the new one.
+			// Constants and nil stay where they are (they have no type to keep).
+			fn := r.fresh("gof")
+			pre := []string{fmt.Sprintf("%s := %s", fn, r.text(n.Call.Fun))}
+			var call []string
+			for i, a := range n.Call.Args {
+				tv, ok := r.info.Types[a]
+				if !ok {
+					fatalf("%s: no type for an argument of a go statement", r.site(a.Pos()))
+				}
+				if _, isTuple := tv.Type.(*types.Tuple); isTuple {
+					fatalf("%s: go statement whose argument is a multi-value call is not supported by simgen", r.site(a.Pos()))
+				}
+				if tv.Value != nil || tv.IsNil() {
+					call = append(call, r.text(a))
+					continue
+				}
+				v := r.fresh("goa")
+				pre = append(pre, fmt.Sprintf("%s := %s", v, r.text(a)))
+				if i == len(n.Call.Args)-1 && n.Call.Ellipsis.IsValid() {
+					v += "..."
+				}
+				call = append(call, v)
+			}
+			return fmt.Sprintf("{\n%s\nsimrt.Go(%q, func() { %s(%s) })\n}", strings.Join(pre, "\n"), r.site(n.Pos()), fn, strings.Join(call, ", ")), true
 		}
 		var callee string
 		if fl, ok := n.Call.Fun.(*ast.FuncLit); ok {
-			if fl.Type.Params != nil && len(fl.Type.Params.List) > 0 {
-				fatalf("%s: go func with parameters is not supported", r.site(n.Pos()))
-			}
 			callee = r.text(fl)
 			return fmt.Sprintf("simrt.Go(%q, %s)", r.site(n.Pos()), callee), true
 		}
